@@ -291,7 +291,7 @@ PROPS = {
         "rule": "as C06: one history per evaluator instance; distinct = distinct history lines",
     },
     "C18": {
-        "lean": ["OxiModel.Props.C18", "OxiModel.Props.C18Roundtrip", "OxiModel.Props.C18Reverse"],
+        "lean": ["OxiModel.Props.C18", "OxiModel.Props.C18Roundtrip", "OxiModel.Props.C18Reverse", "OxiModel.Props.C18ReverseBits"],
         "streams": [{"name": "corr-geom", "quick": 60, "thorough": 600}],
         "oracles": [],
         "claim": "Lean 4 theorems for ALL w>=1, h>=1, bpp>=1 (no bound): the scan-line iterator run over data of the header-implied size yields exactly the specification's rows "
@@ -314,10 +314,13 @@ PROPS = {
                 "u32 subtraction never underflows on a pass that has pixels and that the reader cuts the padding off) - every row's pixels come back unchanged (returned_row_pixels) and the unused bits after a row's last "
                 "pixel come back as zero, so the image comes back byte for byte whenever its padding bits were zero (deinterlace_interlace_bits_exact). "
                 "interlace_places_pixels / interlace_stored_pixels: the interlaced data is, position by position along the specification's Adam7 storage order, the original's pixel at those coordinates (whole image, byte pixels). "
-                "THE OTHER ORDER (Props/C18Reverse.lean, the only file importing Mathlib: Mathlib.Data.Fintype.Card/.Vector): interlace_deinterlace_bytes - for ANY interlaced data of the header-implied size (byte pixels, all "
+                "THE OTHER ORDER (Props/C18Reverse.lean and Props/C18ReverseBits.lean, the only files importing Mathlib: Mathlib.Data.Fintype.Card/.Vector, Mathlib.Data.List.Nodup): interlace_deinterlace_bytes - for ANY interlaced data of the header-implied size (byte pixels, all "
                 "w, h >= 1) deinterlace_image succeeds and interlace_image of its result is the image started from: interlace_image restricted to one header is an injective self-map (left inverse: the round trip) of the byte "
-                "strings of one length (dataSize_bytes: the pass areas partition the image), hence onto. Not proved: the other order below 8 bits (there the unused row bits make interlace_image non-surjective; the statement "
-                "would be modulo padding) - covered by the exhaustive-up-to-bound correspondence. "
+                "strings of one length (dataSize_bytes: the pass areas partition the image), hence onto. interlace_deinterlace_bits (+ _exact): the same below 8 bits per pixel for ANY interlaced data of the header-implied size - "
+                "deinterlace_image succeeds and interlace_image of its result is the image started from, scan line by scan line, with the unused bits after each line's last pixel cleared (byte for byte when they were zero): "
+                "the map rows -> pixels of all pass lines is an injective self-map of the bit strings of length h*w*bpp (units_onto; left inverse: the de-interlacing machine), hence onto, so the pixels of arbitrary interlaced data "
+                "are the pass-line pixels of some rows R; the machine, generalised to arbitrary lines (machine_rebuilds_rowsL: it reads nothing of a line but its pixels, bitUnitsOf_eq), rebuilds R from them; interlacing R packs "
+                "the same pixels again. With this every clause of C18 is a theorem for every width, height >= 1 and every pixel size. "
                 "Trusted: Lean kernel, correspondence tie (tested), harness reference geometry.",
         "technique": "Lean 4 proof (omega over unbounded sizes) + exhaustive-to-bound model/implementation correspondence",
         "rule": "all (w,h) in 1..24 (thorough 1..72) x legal colour-type/depth pairs x interlaced/not x with/without filter byte, plus sparse large sizes and "
